@@ -102,6 +102,10 @@ module Str_split = struct
   let split (s : string) : string list = String.split_on_char '#' s
 end
 
+let kind_name_of = function
+  | KNull -> "null" | KBool -> "bool" | KInt -> "int" | KFloat -> "float" | KString -> "string"
+  | KBytes -> "bytes" | KLink -> "link" | KList -> "list" | KMap -> "map"
+
 let letter_of_sres = function
   | SOk -> "." | SErr e -> err_letter e | SPanic -> "P" | SNoMethod -> "X"
 let tletter = function
@@ -182,9 +186,59 @@ let () =
             Buffer.add_string b (seg_obs (tr, live, built));
             if live then go (i + 1) rest
           end in
-      go 0 parsed;
+      if not (starts_with engine "tbind:" || starts_with engine "tgen:") then go 0 parsed;
       let model_obs = Buffer.contents b in
       (* ---- oracle *)
+      let typed_family = starts_with engine "tbind:" || starts_with engine "tgen:" in
+      let form_name (o : aop) : string = match o with
+        | BeginMap _ -> "beginmap" | BeginList _ -> "beginlist" | AssignNull -> "null" | AssignBool _ -> "bool"
+        | AssignInt _ -> "int" | AssignFloat _ -> "float" | AssignString _ -> "string" | AssignBytes _ -> "bytes"
+        | AssignLink _ -> "link"
+        | AssignNode (NUint _) -> "uintnode"
+        | AssignNode n -> "node" ^ kind_name_of (kind_of n)
+        | AssembleKey -> "assemblekey" | AssembleValue -> "assemblevalue" | AssembleEntry _ -> "assembleentry"
+        | Finish -> "finish" in
+      if typed_family then begin
+        (* SPEC only (no Coq model of these builders): every legal call is ok; a call annotated E<T>
+           (a kind the position of type T cannot hold) returns an error of any class — never ok, never a
+           panic — and the assembler stays usable; the built node reads back as the given value *)
+        let seg = (match parsed with [s] -> s | _ -> []) in
+        let get name =
+          let parts = String.split_on_char '|' obs in
+          let pre = name ^ "=" in
+          match List.find_opt (fun x -> starts_with x pre) parts with
+          | Some x -> String.sub x (String.length pre) (String.length x - String.length pre) | None -> "" in
+        let ot = get "tr" in
+        let cls = ref "" in
+        let set c = if !cls = "" then cls := c in
+        let model_tr = Buffer.create 64 in
+        List.iteri (fun j (o, w) ->
+            let oc = if j < String.length ot then ot.[j] else '?' in
+            if w = "" || String.length w = 1 && w <> "E" then begin
+              let wc = if w = "" then '.' else w.[0] in
+              Buffer.add_char model_tr wc;
+              if !cls = "" && oc <> wc then
+                set (if oc = 'P' then "legal_call_panics"
+                     else if wc = 'r' && oc = '.' then "dup_accepted"
+                     else if wc = 'r' then "dup_misreported"
+                     else if wc = 'w' then "bad_kind_misreported"
+                     else if oc = '?' then "trace_length"
+                     else "legal_call_refused")
+            end else begin
+              (* E<T> *)
+              let ty = String.sub w 1 (String.length w - 1) in
+              let acceptable = not (oc = '.' || oc = 'P' || oc = 'X' || oc = 'B' || oc = '?') in
+              Buffer.add_char model_tr (if acceptable then oc else 'w');
+              if !cls = "" && not acceptable then
+                set ((if oc = 'P' then "bad_kind_panics_" else "bad_kind_accepted_") ^ form_name o ^ "_at_" ^ ty)
+            end) seg;
+        if !cls = "" && String.length ot <> List.length seg then set "trace_length";
+        if !cls = "" && get "b" <> "ok" then set "build_panic";
+        if !cls = "" && get "t" <> vtexts then set "result_differs";
+        let model_obs = "tr=" ^ Buffer.contents model_tr ^ "|b=ok|t=" ^ vtexts in
+        print_string id; print_char '\t'; print_string model_obs; print_char '\t';
+        print_endline (if !cls = "" then "ok" else "fail:" ^ !cls)
+      end else
       let verdict =
         if engine = "enum:any" then "ok"    (* arbitrary call orders: the contract demands nothing *)
         else begin
